@@ -25,6 +25,11 @@ pub struct CloneCase {
     /// files may be touched hold for failing clones just the same; whether the run fails is not judged here.
     #[serde(default)]
     pub fault: u8,
+    /// where the output path points: 0 = the working directory, 1 = an existing sub-directory, 2 = a directory that does
+    /// not exist (only without prior output; the clone is expected to fail - creating the directory would be creating
+    /// something besides the output)
+    #[serde(default)]
+    pub out_dir: u8,
 }
 
 #[derive(Clone, Debug, Serialize, Deserialize)]
@@ -269,6 +274,15 @@ fn run_clone(c: &CloneCase, rec: &mut CaseRec) -> Result<(), String> {
             _ => {}
         }
         l2::write_file(&work.join("a.cba"), &archive);
+        let out_dir = if e.prior.is_some() || s.block_dev { c.out_dir % 2 } else { c.out_dir % 3 };
+        let out_rel: &str = match out_dir {
+            1 => {
+                std::fs::create_dir_all(work.join("sub")).map_err(|x| format!("harness: {}", x))?;
+                "sub/o.out"
+            }
+            2 => "nodir/o.out",
+            _ => "o.out",
+        };
         let mut args: Vec<String> = vec!["clone".into()];
         let mut stdin = None;
         let stdin_idx = c.stdin_seed.map(|i| i as usize).filter(|i| *i < e.seeds.len());
@@ -284,7 +298,7 @@ fn run_clone(c: &CloneCase, rec: &mut CaseRec) -> Result<(), String> {
             }
         }
         if let Some(p) = &e.prior {
-            l2::write_file(&work.join("o.out"), p);
+            l2::write_file(&work.join(out_rel), p);
             args.push(if s.inplace { "--seed-output".into() } else { "--force-create".into() });
         }
         if c.verify_output && !s.block_dev {
@@ -300,7 +314,7 @@ fn run_clone(c: &CloneCase, rec: &mut CaseRec) -> Result<(), String> {
         }
         let srv = if c.http { Some(crate::http::Server::start(Arc::new(archive.clone()), crate::http::Script::default())) } else { None };
         args.push(srv.as_ref().map(|s| s.url()).unwrap_or_else(|| "a.cba".into()));
-        args.push("o.out".into());
+        args.push(out_rel.into());
         let before = tree(&dir);
         let so = dir.join("strace.out");
         let mut env = vec![("TMPDIR".to_string(), tmp.display().to_string())];
@@ -313,7 +327,10 @@ fn run_clone(c: &CloneCase, rec: &mut CaseRec) -> Result<(), String> {
         if run.timed_out {
             return Err(format!("[timeout] bita clone: {}", run.describe()));
         }
-        if !run.ok() && c.fault % 4 == 0 {
+        if out_dir == 2 && run.ok() {
+            rec.class("clone_into_a_missing_directory_succeeded_(recorded_only)");
+        }
+        if !run.ok() && c.fault % 4 == 0 && out_dir != 2 {
             return Err(format!("bita clone failed: {} {:?}", run.describe(), args));
         }
         failed_run = !run.ok();
@@ -321,13 +338,13 @@ fn run_clone(c: &CloneCase, rec: &mut CaseRec) -> Result<(), String> {
         after.remove("strace.out");
         let added: Vec<&String> = after.difference(&before).collect();
         let removed: Vec<&String> = before.difference(&after).collect();
-        if added.iter().any(|a| a.as_str() != "work/o.out") || !removed.is_empty() {
+        if added.iter().any(|a| a.as_str() != format!("work/{}", out_rel)) || !removed.is_empty() {
             return Err(format!("directory listing: clone added {:?} / removed {:?} (only the output may appear)", added, removed));
         }
         if use_strace {
             let text = std::fs::read_to_string(&so).map_err(|x| format!("harness: strace output: {}", x))?;
             let fx = effects(&work, &parse_strace(&text));
-            let out_abs = abs(&work, "o.out");
+            let out_abs = abs(&work, out_rel);
             let bad: Vec<&String> = fx.written.iter().filter(|p| **p != out_abs).collect();
             if !bad.is_empty() {
                 return Err(format!("syscalls: clone opened for writing / created / truncated {:?} besides the output", bad));
@@ -350,6 +367,8 @@ fn run_clone(c: &CloneCase, rec: &mut CaseRec) -> Result<(), String> {
     rec.level = Some("L2");
     rec.nontrivial = true;
     rec.class_if(failed_run, "clone_that_failed");
+    rec.class_if(c.out_dir % 3 == 1, "output_in_an_existing_sub_directory");
+    rec.class_if(c.out_dir % 3 == 2 && s.prior.is_none() && !s.block_dev, "output_below_a_directory_that_does_not_exist");
     rec.class_if(failed_run && s.prior.is_some(), "clone_that_failed_onto_an_existing_output");
     rec.class_if(s.inplace && e.source.len() > 8 * 1024 * 1024, match &s.prior { Some(Related::Edited(ed)) => match (ed.len(), ed.first()) { (1, Some(Edit::Move { len, .. })) if *len == 10 * 1024 * 1024 => "big_swap_longer_half_first", (1, _) => "big_swap_shorter_half_first", (2, Some(Edit::Move { at: 0, .. })) => "big_rotation", _ => "big_region_move" }, _ => "big_other" });
     rec.class(format!(
@@ -505,14 +524,15 @@ fn big_inplace_strategy() -> impl Strategy<Value = CloneCase> {
             verify_output: true,
             verify_header: false,
             fault: 0,
+            out_dir: 0,
         }
     })
 }
 
 fn clone_strategy() -> impl Strategy<Value = CloneCase> {
-    (scenario_strategy(8, true, true), l2::cli_chunker_strategy(), any::<bool>(), prop_oneof![2 => Just(None), 1 => (0u8..4).prop_map(Some)], any::<bool>(), any::<bool>(), prop_oneof![3 => Just(0u8), 1 => Just(1u8), 1 => Just(2u8), 1 => Just(3u8)]).prop_map(|(mut scen, chunker, http, stdin_seed, verify_output, verify_header, fault)| {
+    (scenario_strategy(8, true, true), l2::cli_chunker_strategy(), any::<bool>(), prop_oneof![2 => Just(None), 1 => (0u8..4).prop_map(Some)], any::<bool>(), any::<bool>(), (prop_oneof![3 => Just(0u8), 1 => Just(1u8), 1 => Just(2u8), 1 => Just(3u8)], prop_oneof![4 => Just(0u8), 1 => Just(1u8), 1 => Just(2u8)])).prop_map(|(mut scen, chunker, http, stdin_seed, verify_output, verify_header, (fault, out_dir))| {
         scen.cfg.chunker = chunker;
-        CloneCase { scen, http, stdin_seed, verify_output, verify_header, fault }
+        CloneCase { scen, http, stdin_seed, verify_output, verify_header, fault, out_dir }
     })
 }
 fn compress_strategy() -> impl Strategy<Value = CompressCase> {
@@ -534,7 +554,7 @@ impl Prop for C16 {
     }
     fn meta(&self, _tier: Tier) -> Meta {
         Meta {
-            rule: "cases = the real CLI under `strace -f -y` (file-opening, creating, removing, renaming, truncating syscalls): clone in all modes (local / HTTP archive, seed files, stdin seed, new output / overwrite / --seed-output / block device via hook, +-verify-output, +-verify-header) and compress configurations (file / stdin input, +-force over an existing archive, metadata files, output names with no / several extensions or in a sub-directory). Oracle: for clone the set of paths opened for writing / created / truncated is a subset of {output}, nothing is unlinked, renamed, mkdir'ed or linked, and the archive and seeds are opened read-only; for compress writes go only to the archive and to temporary files (= paths the process itself created and removed again). Recursive directory listings (work dir and $TMPDIR) before/after: clone adds at most the output, a successful compress adds exactly the archive. Every case is non-trivial; distinct by Blake2 of the canonical case; the (command, mode) combinations reached are listed in 'classes'. If ptrace is refused at run time the check falls back to the directory-listing oracle and says so ('listing_only_no_ptrace').".into(),
+            rule: "cases = the real CLI under `strace -f -y` (file-opening, creating, removing, renaming, truncating syscalls): clone in all modes (local / HTTP archive, seed files, stdin seed, new output / overwrite / --seed-output / block device via hook, output in the working directory / an existing sub-directory / below a directory that does not exist, +-verify-output, +-verify-header) and compress configurations (file / stdin input, +-force over an existing archive, metadata files, output names with no / several extensions or in a sub-directory). Oracle: for clone the set of paths opened for writing / created / truncated is a subset of {output}, nothing is unlinked, renamed, mkdir'ed or linked, and the archive and seeds are opened read-only; for compress writes go only to the archive and to temporary files (= paths the process itself created and removed again). Recursive directory listings (work dir and $TMPDIR) before/after: clone adds at most the output, a successful compress adds exactly the archive. Every case is non-trivial; distinct by Blake2 of the canonical case; the (command, mode) combinations reached are listed in 'classes'. If ptrace is refused at run time the check falls back to the directory-listing oracle and says so ('listing_only_no_ptrace').".into(),
             assumptions: vec!["/dev/null, /dev/tty, /proc, /sys, pipes and sockets are ignored; failed syscalls have no effect and are ignored".into()],
             ..Meta::default()
         }
